@@ -2,8 +2,6 @@
 
 use crate::engine::Ctx;
 
-pub mod c01;
-
 pub struct Meta {
     pub rule: &'static str,
     pub explanation: &'static str,
@@ -16,23 +14,29 @@ const COMMON_ASSUMPTIONS: &[&str] = &[
     "exploration never establishes absence of violations outside the explored cases",
 ];
 
-pub fn exists(p: &str) -> bool {
-    matches!(p, "C01")
-}
+macro_rules! properties {
+    ($($id:literal => $m:ident),* $(,)?) => {
+        $(pub mod $m;)*
 
-pub fn run(ctx: &Ctx) {
-    match ctx.prop {
-        "C01" => c01::run(ctx),
-        _ => {}
-    }
-}
+        pub fn exists(p: &str) -> bool {
+            match p { $($id => true,)* _ => false }
+        }
 
-pub fn meta(p: &str) -> Meta {
-    let (rule, explanation) = match p {
-        "C01" => (c01::RULE, c01::EXPLANATION),
-        _ => ("", ""),
+        pub fn run(ctx: &Ctx) {
+            match ctx.prop { $($id => $m::run(ctx),)* _ => {} }
+        }
+
+        pub fn meta(p: &str) -> Meta {
+            let (rule, explanation) = match p { $($id => ($m::RULE, $m::EXPLANATION),)* _ => ("", "") };
+            Meta { rule, explanation, assumptions: COMMON_ASSUMPTIONS.to_vec() }
+        }
     };
-    Meta { rule, explanation, assumptions: COMMON_ASSUMPTIONS.to_vec() }
+}
+
+properties! {
+    "C01" => c01,
+    "C02" => c02,
+    "C03" => c03,
 }
 
 pub fn selftest() -> i32 {
